@@ -129,9 +129,9 @@ def count_nodes(prog, kind):
     for s in prog:
         if s[0] == kind:
             n += 1
-        if s[0] in ("FOR", "WHILE", "CFOR"):
+        if s[0] in ("FOR", "WHILE", "CFOR", "FORI"):
             n += count_nodes(s[1], kind)
-        elif s[0] in ("IF", "IFP"):
+        elif s[0] in ("IF", "IFP", "IFR"):
             n += count_nodes(s[1], kind) + (count_nodes(s[2], kind) if s[2] else 0)
     return n
 
@@ -160,6 +160,8 @@ class Emitter:
         self.nfor = 0
         self.nif = 0
         self.launch_id = 0
+        self.carried = []  # stack of {p, q}: loop-carried (non-state) values of enclosing FORI loops
+        self.results = []  # results of the most recent FORI / IFR statement: {rp, rq}
 
     def fresh(self, p="v"):
         self.n += 1
@@ -181,6 +183,10 @@ class Emitter:
     def _atom(self, a, ivs):
         if a in ("x", "y"):
             return f"%{a}"
+        if a in ("p", "q"):
+            return self.carried[-1][a]
+        if a in ("rp", "rq"):
+            return self.results[-1][a]
         if a == "i":
             return ivs[-1]["i"]
         if a == "ix":
@@ -248,6 +254,38 @@ class Emitter:
                     out.append(f"{ind}}} else {{")
                     self._seq(s[2], out, ind + "  ", ivs)
                 out.append(f"{ind}}}")
+            elif k == "FORI":
+                # loop with two loop-carried values besides whatever state the passes thread through it
+                j = self.nfor
+                self.nfor += 1
+                iv = f"%iv{j}"
+                ic, ix = self.fresh("ic"), self.fresh("ix")
+                pn, qn = self.fresh("p"), self.fresh("q")
+                res = self.fresh("fr")
+                out.append(f"{ind}{res}:2 = scf.for {iv} = %lb{j} to %ub{j} step %st{j} iter_args({pn}c = %x, {qn}c = %y) -> ({self.ft}, {self.ft}) {{")
+                out.append(f"{ind}  {ic} = arith.index_cast {iv} : index to {self.ft}")
+                out.append(f"{ind}  {ix} = arith.addi {ic}, %x : {self.ft}")
+                self.carried.append(dict(p=f"{pn}c", q=f"{qn}c"))
+                self._seq(s[1], out, ind + "  ", ivs + [dict(i=ic, ix=ix, iv=iv)])
+                self.carried.pop()
+                out.append(f"{ind}  {pn}n = arith.addi {pn}c, %x : {self.ft}")
+                out.append(f"{ind}  {qn}n = arith.addi {qn}c, {qn}c : {self.ft}")
+                out.append(f"{ind}  scf.yield {pn}n, {qn}n : {self.ft}, {self.ft}")
+                out.append(f"{ind}}}")
+                self.results.append(dict(rp=f"{res}#0", rq=f"{res}#1"))
+            elif k == "IFR":
+                # scf.if with two results besides the state
+                c = f"%c{self.nif}"
+                self.nif += 1
+                res = self.fresh("ir")
+                out.append(f"{ind}{res}:2 = scf.if {c} -> ({self.ft}, {self.ft}) {{")
+                self._seq(s[1], out, ind + "  ", ivs)
+                out.append(f"{ind}  scf.yield %x, %y : {self.ft}, {self.ft}")
+                out.append(f"{ind}}} else {{")
+                self._seq(s[2], out, ind + "  ", ivs)
+                out.append(f"{ind}  scf.yield %y, %x : {self.ft}, {self.ft}")
+                out.append(f"{ind}}}")
+                self.results.append(dict(rp=f"{res}#0", rq=f"{res}#1"))
             elif k == "WHILE":
                 t, f_ = self.fresh("true"), self.fresh("false")
                 w = self.fresh("w")
@@ -287,3 +325,22 @@ def args_for(loops, conds, x=1000, y=2000):
     for t in loops:
         a += list(t)
     return a
+
+
+def skeletons(acc):
+    """hand-listed programs with control flow that carries *other* values besides the accelerator state (two loop-carried
+    values / two if results of the field type, used by a setup afterwards)"""
+    nf = len(ACCS[acc]["fields"])
+
+    def pat(*atoms):
+        return tuple(atoms[j % len(atoms)] for j in range(nf))
+
+    L = lambda *a: ("L", acc, pat(*a))  # noqa: E731
+    return [
+        (("FORI", (L("p", "q"),)), L("rp", "rq")),
+        (L("x", "y"), ("FORI", (L("q", "p"), L("p", "q"))), L("rq", "rp")),
+        (("FORI", (L("i", "p", "q"),)), L("rp", "x", "rq")),
+        (("IFR", (L("x", "y"),), (L("y", "x"),)), L("rp", "rq")),
+        (L("x", "x"), ("IFR", (L("x", "y"),), (L("x", "y"),)), L("rq", "rp")),
+        (("FORI", (("IFR", (L("p", "q"),), (L("q", "p"),)), L("rp", "rq"))), L("rp", "rq")),
+    ]
